@@ -530,6 +530,7 @@ type dentry struct {
 	id      uint32
 	status  tinkpb.KeyStatusType
 	primary bool
+	legacy  bool // routes.go: stored under the legacy type URL (raw key deriver from a registry.KeyManager)
 }
 
 func (e dentry) String() string {
@@ -1139,11 +1140,19 @@ func unsupportedSection(x *h.X) {
 
 func main() {
 	h.Main("C17", "exploration",
-		"deriver keysets of 1 key (complete product: every registered derivable key type x variant x parameter corner set x PRF key size {32,64} x PRF hash {SHA256,SHA512} x PRF salt {nil,1,32 bytes} x key id x construction path) and of 2 and 3 keys (family per position x status of every non-primary key x each primary x variant rotation x id set x PRF configuration rotation x path), each derived through keyderivation.New(handle).DeriveKeyset for the caller salts {nil, empty, 1, 16, 200 bytes (+7 more in thorough)}; the derived handle is compared key by key with the RFC 5869 reference (verif/ref/keyderiv.go): determinism, structure (ids, prefix type, id requirement, primary, order, status, disabled keys absent), material (leading HKDF bytes, Ed25519 public key by stdlib), separation (salts, PRF key bit flips, PRF salts, PRF hash), usability (interop with a key built directly from the reference bytes and with independent AES-GCM/XChaCha/AES-SIV/HMAC/HKDF/Ed25519 computations; whole derived keyset as a primitive). Non-trivial = a deriver was built and at least one keyset derived; distinct = distinct choice vectors.",
+		"deriver keysets of 1 key (complete product: every registered derivable key type x variant x parameter corner set x PRF key size {32,64} x PRF hash {SHA256,SHA512} x PRF salt {nil,1,32 bytes} x key id x construction path) and of 2 and 3 keys (family per position x status of every non-primary key x each primary x variant rotation x id set x PRF configuration rotation x path), each derived through keyderivation.New(handle).DeriveKeyset for the caller salts {nil, empty, 1, 16, 200 bytes (+7 more in thorough)}; the derived handle is compared key by key with the RFC 5869 reference (verif/ref/keyderiv.go): determinism, structure (ids, prefix type, id requirement, primary, order, status, disabled keys absent), material (leading HKDF bytes, Ed25519 public key by stdlib), separation (salts, PRF key bit flips, PRF salts, PRF hash), usability (interop with a key built directly from the reference bytes and with independent AES-GCM/XChaCha/AES-SIV/HMAC/HKDF/Ed25519 computations; whole derived keyset as a primitive). Construction routes (routes.go): the same oracle for deriver keysets obtained from key templates (7 sources incl. the key manager via registry.NewKeyData/NewKey; every public template and catalogue type x PRF template; the generated PRF key is read back), from hand-written proto keysets of 1 and 3 keys read by 3 readers (leading-zero / zero / unsorted ids, disabled keys, re-parsed copy as second deriver) and through the factory's legacy full-primitive wrapper (registry.KeyManager handing out a raw key deriver); refusal laws for underivable types and prefix conflicts. Non-trivial = a deriver was built and at least one keyset derived; distinct = distinct choice vectors.",
 		[]h.Section{
 			{Name: "single-key", Body: singleSection, Bound: -1},
 			{Name: "two-keys", Body: multiSection(2), Bound: -1},
 			{Name: "three-keys", Body: multiSection(3), Bound: -1},
 			{Name: "unsupported-type", Body: unsupportedSection, Bound: -1},
+			// construction routes (routes.go)
+			{Name: "template-route", Body: templateSection, Bound: -1},
+			{Name: "proto-1key", Body: protoOneKeySection, Bound: -1},
+			{Name: "proto-3keys", Body: protoThreeKeySection, Bound: -1},
+			{Name: "legacy-wrapper", Body: legacySection, Bound: -1},
+			{Name: "underivable-routes", Body: underivableSection, Bound: -1},
+			{Name: "prefix-conflict", Body: prefixConflictSection, Bound: -1},
+			{Name: "other-prf", Body: otherPRFSection, Bound: -1},
 		})
 }
